@@ -7,7 +7,8 @@ _ids = itertools.count()
 
 
 class Parameter(torch.Tensor):
-    pass
+    def __init__(self, v=0, owner=None, index=None, requires_grad=True):
+        super().__init__(v, owner, index, requires_grad)
 
 
 class Module:
@@ -18,15 +19,44 @@ class Module:
         for i in range(nparams):
             self._params[f"p{i}"] = Parameter(value, self.mid, i)
 
+    def __getattr__(self, name):
+        if name.startswith("__"):
+            raise AttributeError(name)
+        raise torch.StubIncomplete(f"stand-in torch.nn.Module has no attribute {name!r}")
+
     def __deepcopy__(self, memo):
         m = type(self).__new__(type(self))
         m.__dict__.update({k: v for k, v in self.__dict__.items() if k not in ("_params", "mid")})
         m.mid = next(_ids)
-        m._params = {k: Parameter(p._v, m.mid, p.index) for k, p in self._params.items()}
+        m._params = {k: Parameter(p._v, m.mid, p.index, p.requires_grad) for k, p in self._params.items()}
         return m
 
-    def parameters(self):
+    def parameters(self, recurse=True):
         return iter(list(self._params.values()))
+
+    def named_parameters(self, *a, **k):
+        return iter(list(self._params.items()))
+
+    def buffers(self, recurse=True):
+        return iter(())
+
+    def named_buffers(self, *a, **k):
+        return iter(())
+
+    def children(self):
+        return iter(())
+
+    def modules(self):
+        return iter([self])
+
+    def requires_grad_(self, requires_grad=True):
+        for p in self._params.values():
+            p.requires_grad = requires_grad
+        return self
+
+    def zero_grad(self, set_to_none=True):
+        for p in self._params.values():
+            p.grad = None
 
     def state_dict(self):
         return dict(self._params)          # references, as in PyTorch
